@@ -20,13 +20,18 @@ O7  Xfrm.create_child_sa: the inbound kernel SA is the exact argument-wise mirro
     direction keys; the is_initiator switch gives the initiator the *i* keys for its outbound SA.
 O8  Xfrm.create_sa puts each parameter into the like-oriented kernel field (shared with C14/L3).
 O9  kernel algorithm names per transform.
+
+All operands are compared as value terms (sa.sval): what reaches a parameter, written over the function's own
+parameters, attributes and calls - local variable names, helper functions, if-statement versus conditional
+expression and argument passing style do not matter.
 """
 import ast
 
-from ..model import namedtuple_fields, src, walk_no_nested
-from ..terms import callee_name, calls_in, compare_parts, inline, kwargs_of, single_def
+from ..model import namedtuple_fields, walk_no_nested
+from ..sval import NONE, const, mk_cond, same, strip_ids
+from .. import tq
 from . import common
-from .c04 import RFC_ORDER, fmt_fields
+from .c04 import RFC_ORDER, fmt_sizes
 
 EXPLANATION = ('static analysis: provenance and orientation of every operand with a role subscript (i/r, my/peer, in/out, '
                'src/dst) at the key-derivation sites, the ChildSa construction sites and the two kernel SA installations, the '
@@ -37,63 +42,65 @@ ASSUMPTIONS = [
 ]
 
 IKESA = 'ikesa.IkeSa'
-SIGMA = {'src_selector': 'dst_selector', 'dst_selector': 'src_selector', 'src_port': 'dst_port', 'dst_port': 'src_port',
-         'child_sa.outbound_spi': 'child_sa.inbound_spi', 'child_sa.inbound_spi': 'child_sa.outbound_spi',
-         'ike_sa.my_addr': 'ike_sa.peer_addr', 'ike_sa.peer_addr': 'ike_sa.my_addr',
-         'sk_ei': 'sk_er', 'sk_er': 'sk_ei', 'sk_ai': 'sk_ar', 'sk_ar': 'sk_ai'}
+
+
+def attr(t, name):
+    return ('attr', t, name)
+
+
+def P(name):
+    return ('param', name)
+
+
+def idx(t, i):
+    return ('index', t, const(i))
 
 
 def run(ctx):
-    prog, res = ctx.prog, ctx.res
-    esc = ctx.escape('engine', kills=common.engine_kills(ctx))
+    prog = ctx.prog
 
     # ---------------------------------------------------------------- O1 / O2
     gk = ctx.func(IKESA + '.generate_ike_sa_key_material')
-    ups = [n for n in walk_no_nested(gk.node) if isinstance(n, ast.Assign) and isinstance(n.value, ast.Call)
-           and callee_name(n.value) == 'unpack']
-    ctx.check(len(ups) == 1 and isinstance(ups[0].targets[0], ast.Tuple) and [src(t) for t in ups[0].targets[0].elts] == RFC_ORDER,
-              'O1', 'the SK_* material is split in RFC order SK_d|SK_ai|SK_ar|SK_ei|SK_er|SK_pi|SK_pr', key=('O1', 'split-order'),
-              site=ctx.site(gk, gk.node))
+    V = ctx.sval(gk)
+    kr = V.ret()
+    U = None
+    ok = tq.is_call(kr, 'namedtuple.Keyring')
+    if ok:
+        a = tq.args(kr)
+        first = a.get(RFC_ORDER[0])
+        U = first[1] if first is not None and first[0] == 'index' else None
+        ok = U is not None and tq.is_call(U, 'struct.unpack') and all(a.get(n) == idx(U, i) for i, n in enumerate(RFC_ORDER))
+    ctx.check(ok, 'O1', 'the SK_* material is split in RFC order SK_d|SK_ai|SK_ar|SK_ei|SK_er|SK_pi|SK_pr and returned in the '
+              'like-named Keyring fields', key=('O1', 'split-order'), site=ctx.site(gk, gk.node),
+              detail={'returned': tq.text(kr)})
     ctx.check(namedtuple_fields(prog, 'ikesa', 'Keyring') == RFC_ORDER, 'O1', 'Keyring fields are declared in that order',
               key=('O1', 'keyring-fields'))
-    kr = [n for n in walk_no_nested(gk.node) if isinstance(n, ast.Assign) and isinstance(n.value, ast.Call)
-          and callee_name(n.value) == 'Keyring']
-    ctx.check(len(kr) == 1 and [src(a) for a in kr[0].value.args] == RFC_ORDER, 'O1', 'and filled positionally from the like-named '
-              'results', key=('O1', 'keyring-fill'), site=ctx.site(gk, gk.node))
-    krv = src(kr[0].targets[0]) if len(kr) == 1 else 'ike_sa_keyring'
     cinit = ctx.func('crypto.Crypto.__init__')
-    stored = {}
-    for n in walk_no_nested(cinit.node):
-        if isinstance(n, ast.Assign) and isinstance(n.targets[0], ast.Attribute) and src(n.targets[0].value) == 'self':
-            stored[n.targets[0].attr] = src(n.value)
-    ctx.check(stored == {p: p for p in cinit.call_params()} and set(stored) == {'cipher', 'sk_e', 'integrity', 'sk_a', 'prf', 'sk_p'},
+    CV = ctx.sval(cinit)
+    stored = {t[2]: v for t, v, _, _, _ in CV.stores if t[0] == 'attr' and t[1] == P('self')}
+    ctx.check(stored == {p: P(p) for p in cinit.call_params()} and set(stored) == {'cipher', 'sk_e', 'integrity', 'sk_a', 'prf', 'sk_p'},
               'O1', 'Crypto keeps each constructor argument under the like-named attribute', key=('O1', 'crypto-fields'),
               site=ctx.site(cinit, cinit.node))
-    cr = {}
-    for n in walk_no_nested(gk.node):
-        if isinstance(n, ast.Assign) and isinstance(n.value, ast.Call) and callee_name(n.value) == 'Crypto':
-            cr[src(n.targets[0])] = kwargs_of(n.value, target=cinit)
+    cr = V.calls_to(callee='new crypto.Crypto')
     dirs = {}
-    for name, b in cr.items():
-        keys = {p: src(b.get(p)) for p in ('sk_e', 'sk_a', 'sk_p')}
-        for d in ('i', 'r'):
-            if keys == {'sk_e': '%s.sk_e%s' % (krv, d), 'sk_a': '%s.sk_a%s' % (krv, d), 'sk_p': '%s.sk_p%s' % (krv, d)} or \
-                    keys == {'sk_e': 'sk_e' + d, 'sk_a': 'sk_a' + d, 'sk_p': 'sk_p' + d}:
-                dirs[d] = name
+    if U is not None:
+        for c in cr:
+            keys = tuple(c.args.get(p) for p in ('sk_e', 'sk_a', 'sk_p'))
+            if keys == (idx(U, 3), idx(U, 1), idx(U, 5)):
+                dirs['i'] = c.term
+            elif keys == (idx(U, 4), idx(U, 2), idx(U, 6)):
+                dirs['r'] = c.term
     ctx.check(len(cr) == 2 and set(dirs) == {'i', 'r'}, 'O1', 'two Crypto objects: one from (SK_ei, SK_ai, SK_pi), one from '
               '(SK_er, SK_ar, SK_pr), each key in the like-named parameter', key=('O1', 'crypto-objects'), site=ctx.site(gk, gk.node),
-              detail={k: {p: src(v) for p, v in b.items()} for k, b in cr.items()})
+              detail={str(c.node.lineno): {p: tq.text(v, 120) for p, v in c.args.items()} for c in cr})
     if set(dirs) == {'i', 'r'}:
-        for attr, when_init, when_resp in (('my_crypto', dirs['i'], dirs['r']), ('peer_crypto', dirs['r'], dirs['i'])):
-            asg = [n for n in walk_no_nested(gk.node) if isinstance(n, ast.Assign) and src(n.targets[0]) == 'self.' + attr]
-            ok = len(asg) == 1 and isinstance(asg[0].value, ast.IfExp)
-            if ok:
-                e = asg[0].value
-                t = src(e.test)
-                ok = (t == 'self.is_initiator' and src(e.body) == when_init and src(e.orelse) == when_resp) or \
-                     (t == 'not self.is_initiator' and src(e.body) == when_resp and src(e.orelse) == when_init)
-            ctx.check(ok, 'O2', '%s is the %s-direction Crypto for the initiator and the other one for the responder' % (
-                attr, 'initiator' if attr == 'my_crypto' else 'responder'), key=('O2', attr), site=ctx.site(gk, gk.node))
+        isi = attr(P('self'), 'is_initiator')
+        for name, when_init, when_resp in (('my_crypto', dirs['i'], dirs['r']), ('peer_crypto', dirs['r'], dirs['i'])):
+            st = [V.final('self.' + name)]
+            ctx.check(st[0] == mk_cond(isi, when_init, when_resp), 'O2',
+                      '%s is the %s-direction Crypto for the initiator and the other one for the responder' % (
+                          name, 'initiator' if name == 'my_crypto' else 'responder'), key=('O2', name), site=ctx.site(gk, gk.node),
+                      detail={'stored': [tq.text(x, 200) for x in st if x]})
         others = [f.qual for f in prog.all_functions() if f.qual != gk.qual and f.name != '__init__' for n in walk_no_nested(f.node)
                   if isinstance(n, ast.Assign) and any(isinstance(t, ast.Attribute) and t.attr in ('my_crypto', 'peer_crypto')
                                                        for t in n.targets)]
@@ -102,289 +109,332 @@ def run(ctx):
     # ---------------------------------------------------------------- O3
     sites = {}
     for fi in prog.cls(IKESA).methods.values():
-        for c in calls_in(fi.node):
-            if callee_name(c) == 'generate_ike_sa_key_material':
-                sites[fi.qual] = (fi, c)
-    ctx.check(set(sites) == {IKESA + '._process_ike_sa_negotiation_request', IKESA + '.process_ike_sa_negotiation_response'}, 'O3',
-              'IKE keys are derived in the responder and the initiator negotiation function', key=('O3', 'sites'),
+        if not isinstance(fi.node, ast.FunctionDef):
+            continue
+        for c in ctx.sval(fi).calls_to(qual=gk.qual):
+            sites.setdefault(fi.qual, []).append((fi, c))
+    ctx.check(set(sites) == {IKESA + '._process_ike_sa_negotiation_request', IKESA + '.process_ike_sa_negotiation_response'}
+              and all(len(v) == 1 for v in sites.values()), 'O3',
+              'IKE keys are derived once in the responder and once in the initiator negotiation function', key=('O3', 'sites'),
               detail={'found': sorted(sites)})
-    for q, (fi, c) in sites.items():
-        b = kwargs_of(c, target=gk)
+    for q, lst in sites.items():
+        fi, c = lst[0]
+        S = ctx.sval(fi)
+        b = c.args
         msg = fi.call_params()[0]
         responder = q.endswith('_process_ike_sa_negotiation_request')
 
-        def peer_nonce(e):
-            t = src(inline(res, fi, e, 3, frozenset([msg])))
-            return t.startswith('%s.get_payload(Payload.Type.NONCE' % msg) and t.endswith('.nonce')
-
-        def fresh_nonce(e):
-            return src(inline(res, fi, e, 3)) == 'PayloadNONCE().nonce'
+        def m(pattern, t):
+            return t is not None and tq.match(S.expr(pattern), t) is not None
+        peer_nonce = '%s.get_payload(Payload.Type.NONCE, _).nonce' % msg
+        peer_ke = '%s.get_payload(Payload.Type.KE, _)' % msg
+        cs = [x for x in S.calls if x.name == 'compute_secret']
         if responder:
-            exp = [('nonce_i', peer_nonce(b.get('nonce_i')), 'Ni is the nonce of the received request'),
-                   ('nonce_r', fresh_nonce(b.get('nonce_r')), 'Nr is the freshly drawn nonce put into the response'),
-                   ('spi_i', src(b.get('spi_i')) == 'self.peer_spi', 'SPIi is the peer\'s SPI'),
-                   ('spi_r', src(b.get('spi_r')) == 'self.my_spi', 'SPIr is our SPI')]
+            exp = [('nonce_i', m(peer_nonce, b.get('nonce_i')), 'Ni is the nonce of the received request'),
+                   ('spi_i', b.get('spi_i') == attr(P('self'), 'peer_spi'), 'SPIi is the peer\'s SPI'),
+                   ('spi_r', b.get('spi_r') == attr(P('self'), 'my_spi'), 'SPIr is our SPI')]
             nr = b.get('nonce_r')
-            rets = [r for r in walk_no_nested(fi.node) if isinstance(r, ast.Return)]
-            sent = isinstance(nr, ast.Attribute) and all(isinstance(r.value, ast.List) and src(nr.value) in [src(x) for x in r.value.elts]
-                                                         for r in rets) and bool(rets)
+            fresh = nr is not None and nr[0] == 'attr' and nr[2] == 'nonce' and tq.is_call(nr[1], 'new message.PayloadNONCE') \
+                and not tq.args(nr[1])
+            exp.append(('nonce_r', fresh, 'Nr is the freshly drawn nonce put into the response'))
+            rets = [t for _, t, _ in S.returns]
+            sent = fresh and bool(rets) and all(t[0] == 'list' and nr[1] in t[1] for t in rets)
             exp.append(('nonce_r-sent', sent, 'the nonce used as Nr is the one returned in the response payloads'))
-            dh = src(b.get('shared_secret'))
-            dv = dh.rsplit('.', 1)[0]
-            d = single_def(res, fi, dv)
-            cs = [x for x in calls_in(fi.node) if callee_name(x) == 'compute_secret' and src(x.func.value) == dv]
-            ok = dh.endswith('.shared_secret') and isinstance(d, ast.Call) and callee_name(d) == 'from_group' and len(cs) == 1 \
-                and src(inline(res, fi, cs[0].args[0], 3, frozenset([msg]))).startswith('%s.get_payload(Payload.Type.KE' % msg)
-            ke = [x for x in calls_in(fi.node) if callee_name(x) == 'PayloadKE']
-            ok = ok and len(ke) == 1 and [src(a) for a in ke[0].args] == [dv + '.group', dv + '.public_key']
+            ss = b.get('shared_secret')
+            dh = ss[1] if ss is not None and ss[0] == 'attr' and ss[2] == 'shared_secret' else None
+            ok = dh is not None and m('DiffieHellman.from_group(%s.dh_group)' % peer_ke, dh) and len(cs) == 1 and cs[0].recv == dh \
+                and m(peer_ke + '.ke_data', list(cs[0].args.values())[0] if cs[0].args else None) and cs[0].seq < c.seq
+            ke = S.calls_to(callee='new message.PayloadKE')
+            ok = ok and len(ke) == 1 and ke[0].args.get('dh_group') == attr(dh, 'group') and ke[0].args.get('ke_data') == attr(dh, 'public_key') \
+                and all(t[0] == 'list' and ke[0].term in t[1] for t in rets)
             exp.append(('shared_secret', ok, 'g^ir comes from a fresh DH object fed with the peer\'s KE data, whose public value is returned'))
         else:
-            callers_ok = True
-            exp = [('nonce_i', src(b.get('nonce_i')) == fi.call_params()[1], 'Ni is the nonce handed in by the caller'),
-                   ('nonce_r', peer_nonce(b.get('nonce_r')), 'Nr is the nonce of the received response'),
-                   ('spi_i', src(b.get('spi_i')) == 'self.my_spi', 'SPIi is our SPI'),
-                   ('spi_r', src(b.get('spi_r')) == 'self.peer_spi', 'SPIr is the peer\'s SPI')]
-            cs = [x for x in calls_in(fi.node) if callee_name(x) == 'compute_secret']
-            ok = src(b.get('shared_secret')) == 'self.dh.shared_secret' and len(cs) == 1 and src(cs[0].func.value) == 'self.dh' \
-                and src(inline(res, fi, cs[0].args[0], 3, frozenset([msg]))).startswith('%s.get_payload(Payload.Type.KE' % msg)
+            exp = [('nonce_i', b.get('nonce_i') == P(fi.call_params()[1]), 'Ni is the nonce handed in by the caller'),
+                   ('nonce_r', m(peer_nonce, b.get('nonce_r')), 'Nr is the nonce of the received response'),
+                   ('spi_i', b.get('spi_i') == attr(P('self'), 'my_spi'), 'SPIi is our SPI')]
+            dh = attr(P('self'), 'dh')
+            ok = b.get('shared_secret') == attr(dh, 'shared_secret') and len(cs) == 1 and cs[0].recv == dh \
+                and m(peer_ke + '.ke_data', list(cs[0].args.values())[0] if cs[0].args else None) and cs[0].seq < c.seq
             exp.append(('shared_secret', ok, 'g^ir comes from the DH object of our request fed with the peer\'s KE data'))
-            # the peer SPI is learnt before the keys are derived
-            g = esc.add_exception_edges(fi)
-            st = [n for n in g.nodes if n.kind == 'stmt' and isinstance(n.ast, ast.Assign) and src(n.ast.targets[0]) == 'self.peer_spi']
-            kn = common.node_of(g, c)
-            v = st[0].ast.value if len(st) == 1 else None
-            ok = len(st) == 1 and kn and kn[0].id not in g.reach([g.entry], blocked_nodes=st) and isinstance(v, ast.IfExp) \
-                and src(v.test) in ('old_sk_d is None',) and src(v.body) == msg + '.spi_r' and src(v.orelse) == 'self.chosen_proposal.spi'
+            # the peer SPI is learnt before the keys are derived: the SPIr operand is the value just stored in self.peer_spi
+            want = S.expr('%s.spi_r if old_sk_d is None else %s.get_payload(Payload.Type.SA, _).proposals[0].spi' % (msg, msg))
+            ok = b.get('spi_r') is not None and tq.match(want, b['spi_r']) is not None and S.final('self.peer_spi') == b['spi_r']
             exp.append(('peer_spi', ok, 'the peer SPI is taken from the response header (from the SA payload on a rekey) before deriving'))
-        exp.append(('old_sk_d', src(b.get('old_sk_d')) == 'old_sk_d' and 'old_sk_d' in fi.call_params(), 'the old SK_d is passed through'))
-        exp.append(('ike_proposal', src(b.get('ike_proposal')) == 'self.chosen_proposal', 'keys are derived for the chosen proposal'))
+        exp.append(('old_sk_d', b.get('old_sk_d') == P('old_sk_d') and 'old_sk_d' in fi.call_params(), 'the old SK_d is passed through'))
+        chosen = [(v, s) for t, v, _, _, s in S.stores if t == attr(P('self'), 'chosen_proposal') and s < c.seq]
+        exp.append(('ike_proposal', bool(chosen) and b.get('ike_proposal') == chosen[-1][0], 'keys are derived for the chosen proposal'))
         for k, ok, what in exp:
-            ctx.check(ok, 'O3', '%s: %s' % (fi.name, what), key=('O3', q, k), site=ctx.site(fi, c),
-                      detail={'found': src(b.get(k)) if k in b else None})
-        asg = [n for n in walk_no_nested(fi.node) if isinstance(n, ast.Assign) and n.value is c]
-        ctx.check(len(asg) == 1 and src(asg[0].targets[0]) == 'self.ike_sa_keyring', 'O3', '%s keeps the derived keyring' % fi.name,
-                  key=('O3', q, 'keyring'), site=ctx.site(fi, c))
+            ctx.check(ok, 'O3', '%s: %s' % (fi.name, what), key=('O3', q, k), site=ctx.site(fi, c.node),
+                      detail={'found': tq.text(b[k], 300) if k in b else None})
+        kept = [v for t, v, _, _, _ in S.stores if t == attr(P('self'), 'ike_sa_keyring')]
+        ctx.check(len(kept) == 1 and kept[0] == c.term, 'O3', '%s keeps the derived keyring' % fi.name,
+                  key=('O3', q, 'keyring'), site=ctx.site(fi, c.node))
     # callers: old SK_d and Ni
     callers = [
-        (IKESA + '.process_ike_sa_init_request', '_process_ike_sa_negotiation_request', None, False),
-        (IKESA + '.process_create_child_sa_request', '_process_ike_sa_negotiation_request', 'self.ike_sa_keyring.sk_d', True),
-        (IKESA + '.process_ike_sa_init_response', 'process_ike_sa_negotiation_response', None, False),
-        (IKESA + '.process_create_child_sa_response', 'process_ike_sa_negotiation_response', 'self.ike_sa_keyring.sk_d', True)]
-    for q, callee, old, rekey in callers:
+        (IKESA + '.process_ike_sa_init_request', '_process_ike_sa_negotiation_request', False),
+        (IKESA + '.process_create_child_sa_request', '_process_ike_sa_negotiation_request', True),
+        (IKESA + '.process_ike_sa_init_response', 'process_ike_sa_negotiation_response', False),
+        (IKESA + '.process_create_child_sa_response', 'process_ike_sa_negotiation_response', True)]
+    old = attr(attr(P('self'), 'ike_sa_keyring'), 'sk_d')
+    for q, callee, rekey in callers:
         fi = ctx.func(q)
-        cs = [c for c in calls_in(fi.node) if callee_name(c) == callee]
+        S = ctx.sval(fi)
+        cs = S.calls_to(qual=IKESA + '.' + callee)
         ctx.check(len(cs) == 1, 'O3', '%s calls %s once' % (fi.name, callee), key=('O3', q, 'call'), site=ctx.site(fi, fi.node))
         for c in cs:
-            b = kwargs_of(c, target=ctx.func(IKESA + '.' + callee))
-            ctx.check((src(b.get('old_sk_d')) == old) if old else ('old_sk_d' not in b), 'O3',
-                      '%s: %s' % (fi.name, 'the rekey derivation is keyed with the old IKE_SA\'s SK_d' if old else
-                                  'the initial derivation has no old SK_d'), key=('O3', q, 'old_sk_d'), site=ctx.site(fi, c))
-            recv = src(c.func.value)
-            ctx.check(recv == ('self.new_ike_sa' if rekey else 'self'), 'O3', '%s: the keys are derived on %s' % (
-                fi.name, 'the successor IKE_SA' if rekey else 'this IKE_SA'), key=('O3', q, 'receiver'), site=ctx.site(fi, c))
+            b = c.args
+            ctx.check((b.get('old_sk_d') == old) if rekey else (b.get('old_sk_d') in (None, NONE)), 'O3',
+                      '%s: %s' % (fi.name, 'the rekey derivation is keyed with the old IKE_SA\'s SK_d' if rekey else
+                                  'the initial derivation has no old SK_d'), key=('O3', q, 'old_sk_d'), site=ctx.site(fi, c.node),
+                      detail={'found': tq.text(b['old_sk_d']) if 'old_sk_d' in b else None})
+            if rekey:
+                succ = [v for t, v, _, _, s in S.stores if t == attr(P('self'), 'new_ike_sa') and s < c.seq]
+                ok = c.recv == attr(P('self'), 'new_ike_sa') or (bool(succ) and c.recv == succ[-1])
+            else:
+                ok = c.recv == P('self')
+            ctx.check(ok, 'O3', '%s: the keys are derived on %s' % (fi.name, 'the successor IKE_SA' if rekey else 'this IKE_SA'),
+                      key=('O3', q, 'receiver'), site=ctx.site(fi, c.node), detail={'receiver': tq.text(c.recv, 200)})
             if callee == 'process_ike_sa_negotiation_response':
-                t = src(b.get('nonce'))
-                ctx.check(t.startswith('self.request.get_payload(Payload.Type.NONCE') and t.endswith('.nonce'), 'O3',
-                          '%s: Ni is the nonce of our own outstanding request' % fi.name, key=('O3', q, 'nonce'), site=ctx.site(fi, c))
+                ctx.check(b.get('nonce') is not None and tq.match(S.expr('self.request.get_payload(Payload.Type.NONCE, _).nonce'),
+                                                                 b['nonce']) is not None or
+                          tq.match(S.expr('self.request.get_payload(Payload.Type.NONCE).nonce'), b.get('nonce', NONE)) is not None, 'O3',
+                          '%s: Ni is the nonce of our own outstanding request' % fi.name, key=('O3', q, 'nonce'), site=ctx.site(fi, c.node),
+                          detail={'found': tq.text(b['nonce']) if 'nonce' in b else None})
     # successor construction: roles and peer SPI
-    for q, role, spi in ((IKESA + '.process_create_child_sa_request', 'False', 'proposal.spi'),
-                         (IKESA + '.generate_rekey_ike_sa_request', 'True', "b''")):
+    for q, role, spi in ((IKESA + '.process_create_child_sa_request', False, 'request.get_payload(Payload.Type.SA, True).proposals[0].spi'),
+                         (IKESA + '.generate_rekey_ike_sa_request', True, "b''")):
         fi = ctx.func(q)
-        cs = [c for c in calls_in(fi.node) if callee_name(c) == 'IkeSa']
+        S = ctx.sval(fi)
+        cs = S.calls_to(callee='new ikesa.IkeSa')
         ok = len(cs) == 1
+        found = None
         if ok:
-            b = kwargs_of(cs[0], target=ctx.func(IKESA + '.__init__'))
-            ok = src(b.get('is_initiator')) == role and src(b.get('peer_spi')) == spi \
-                and [src(b.get(k)) for k in ('configuration', 'my_addr', 'peer_addr')] == ['self.configuration', 'self.my_addr', 'self.peer_addr']
-        ctx.check(ok, 'O3', '%s: the successor IKE_SA has role is_initiator=%s, peer SPI %s and the same endpoints' % (fi.name, role, spi),
-                  key=('O3', q, 'successor'), site=ctx.site(fi, fi.node))
-    rk = ctx.func(IKESA + '.process_create_child_sa_request')
-    d = single_def(res, rk, 'proposal')
-    ctx.check(isinstance(d, ast.AST) and src(inline(res, rk, d, 2, frozenset(['request']))).startswith(
-        'request.get_payload(Payload.Type.SA, True).proposals[0]'), 'O3', 'on a rekey the peer\'s new SPI is the SPI of its proposal',
-        key=('O3', 'rekey-peer-spi'), site=ctx.site(rk, rk.node))
+            b = cs[0].args
+            found = {k: tq.text(v, 120) for k, v in b.items()}
+            ok = b.get('is_initiator') == const(role) and b.get('peer_spi') is not None \
+                and tq.match(S.expr(spi), b['peer_spi']) is not None \
+                and [b.get(k) for k in ('configuration', 'my_addr', 'peer_addr')] == [attr(P('self'), k) for k in (
+                    'configuration', 'my_addr', 'peer_addr')]
+        ctx.check(ok, 'O3', '%s: the successor IKE_SA has role is_initiator=%s, peer SPI %s and the same endpoints' % (
+            fi.name, role, 'of the peer\'s proposal' if not role else "b'' (not yet known)"),
+            key=('O3', q, 'successor'), site=ctx.site(fi, fi.node), detail={'found': found})
 
     # ---------------------------------------------------------------- O4
     gc = ctx.func(IKESA + '.generate_child_sa_key_material')
-    ups = [n for n in walk_no_nested(gc.node) if isinstance(n, ast.Assign) and isinstance(n.value, ast.Call)
-           and callee_name(n.value) == 'unpack']
-    ok = len(ups) == 1 and isinstance(ups[0].targets[0], ast.Tuple) and [src(t) for t in ups[0].targets[0].elts] == [
-        'sk_ei', 'sk_ai', 'sk_er', 'sk_ar']
+    G = ctx.sval(gc)
+    kr = G.ret()
+    ok = tq.is_call(kr, 'namedtuple.Keyring')
     if ok:
-        sizes = fmt_fields(ups[0].value.args[0], {'encr_key_size': 11, 'integ_key_size': 7}, prog, gc)
-        ok = sizes == [11, 7, 11, 7]
-    ctx.check(ok, 'O4', 'KEYMAT is split as SK_ei|SK_ai|SK_er|SK_ar (initiator-to-responder keys first)', key=('O4', 'split'),
-              site=ctx.site(gc, gc.node))
-    kr = [c for c in calls_in(gc.node) if callee_name(c) == 'Keyring']
-    ctx.check(len(kr) == 1 and [src(a) for a in kr[0].args] == ['None', 'sk_ai', 'sk_ar', 'sk_ei', 'sk_er', 'None', 'None'], 'O4',
-              'and stored at the like-named Keyring positions', key=('O4', 'keyring'), site=ctx.site(gc, gc.node))
+        a = tq.args(kr)
+        first = a.get('sk_ei')
+        U2 = first[1] if first is not None and first[0] == 'index' else None
+        ok = U2 is not None and tq.is_call(U2, 'struct.unpack') and \
+            [a.get(n) for n in RFC_ORDER] == [NONE, idx(U2, 1), idx(U2, 3), idx(U2, 0), idx(U2, 2), NONE, NONE]
+        if ok:
+            up = [c for c in G.calls if c.term == U2]
+            sizes = fmt_sizes(ctx, gc, up[0], {'encr': 11, 'integ': 7}) if up else None
+            ok = sizes == [11, 7, 11, 7]
+    ctx.check(ok, 'O4', 'KEYMAT is split as SK_ei|SK_ai|SK_er|SK_ar (initiator-to-responder keys first) and stored at the like-named '
+              'Keyring positions', key=('O4', 'split'), site=ctx.site(gc, gc.node), detail={'returned': tq.text(kr, 600)})
 
     # ---------------------------------------------------------------- O6
     rq = ctx.func(IKESA + '._process_create_child_sa_negotiation_req')
-    gq = esc.add_exception_edges(rq)
-    cs = [(n, x) for n, x in common.nodes_calling(ctx, rq, gq, common.calls_named('ChildSa'))]
+    R = ctx.sval(rq)
+    req = rq.call_params()[0]
+    cs = R.calls_to(callee='namedtuple.ChildSa')
     ctx.check(len(cs) == 1, 'O6', 'the responder builds one ChildSa', key=('O6', 'responder-childsa'), site=ctx.site(rq, rq.node))
-    for n, x in cs:
-        kw = kwargs_of(x, names=[])
-        prop = src(kw.get('proposal'))
-        ctx.check(src(kw.get('outbound_spi')) == prop + '.spi' and src(kw.get('inbound_spi')) == 'os.urandom(4)', 'O6',
-                  'responder: outbound SPI is the SPI of the peer\'s (chosen) proposal, inbound SPI is fresh', key=('O6', 'responder-spis'),
-                  site=ctx.site(rq, x))
-        csv = src(n.ast.targets[0]) if isinstance(n.ast, ast.Assign) else None
-        lk = [m for m in walk_no_nested(rq.node) if isinstance(m, ast.Assign) and isinstance(m.value, ast.Call)
-              and callee_name(m.value) == '_get_ipsec_configuration' and isinstance(m.targets[0], ast.Tuple)
-              and len(m.targets[0].elts) == 3]
-        ok = len(lk) == 1 and src(kw.get('tsi')) == src(lk[0].targets[0].elts[1]) and src(kw.get('tsr')) == src(lk[0].targets[0].elts[2])
+    for c in cs:
+        kw = c.args
+        prop = kw.get('proposal')
+        ok = prop is not None and tq.is_call(prop, 'ikesa.IkeSa._select_best_sa_proposal') and \
+            tq.match(R.expr('%s.get_payload(Payload.Type.SA, True)' % req), tq.args(prop).get('peer_payload_sa', NONE)) is not None
+        ctx.check(ok and kw.get('outbound_spi') == attr(prop, 'spi') and tq.match(R.expr('os.urandom(4)'), kw.get('inbound_spi', NONE)) is not None,
+                  'O6', 'responder: outbound SPI is the SPI of the peer\'s (chosen) proposal, inbound SPI is fresh',
+                  key=('O6', 'responder-spis'), site=ctx.site(rq, c.node),
+                  detail={'outbound_spi': tq.text(kw.get('outbound_spi', NONE), 200), 'inbound_spi': tq.text(kw.get('inbound_spi', NONE))})
+        lk = R.calls_to(qual=IKESA + '._get_ipsec_configuration')
+        ok = len(lk) == 1 and kw.get('tsi') == idx(lk[0].term, 1) and kw.get('tsr') == idx(lk[0].term, 2) and \
+            tq.match(R.expr('%s.get_payload(Payload.Type.TSi, True)' % req), lk[0].args.get('payload_tsi', NONE)) is not None and \
+            tq.match(R.expr('%s.get_payload(Payload.Type.TSr, True)' % req), lk[0].args.get('payload_tsr', NONE)) is not None
         gi = ctx.func(IKESA + '._get_ipsec_configuration')
-        rets = [r for r in walk_no_nested(gi.node) if isinstance(r, ast.Return)]
-        ok = ok and bool(rets) and all(isinstance(r.value, ast.Tuple) and len(r.value.elts) == 3 and (
-            src(r.value.elts[1]) in ('tsr', 'ipsec_conf.my_ts') and src(r.value.elts[2]) in ('tsi', 'ipsec_conf.peer_ts')) for r in rets)
+        GI = ctx.sval(gi)
+        rets = [t for _, t, _ in GI.returns]
+
+        def from_ts(t, param):
+            """an element of <param>.traffic_selectors (possibly reversed)"""
+            return t[0] == 'elem' and tq.contains(t[1], attr(P(param), 'traffic_selectors'))
+
+        def local_ok(t):
+            return t[0] == 'tuple' and len(t[1]) == 3 and (
+                (from_ts(t[1][1], 'payload_tsr') and from_ts(t[1][2], 'payload_tsi')) or
+                (t[1][1] == attr(t[1][0], 'my_ts') and t[1][2] == attr(t[1][0], 'peer_ts')))
+        ok = ok and bool(rets) and all(local_ok(strip_ids(t)) for t in rets)
         ctx.check(ok, 'O6', 'responder: tsi of the ChildSa is the local-side selector (requested TSr / policy my_ts), tsr the peer-side one',
-                  key=('O6', 'responder-ts'), site=ctx.site(rq, x))
-        ow = [m for m in gq.nodes if m.kind == 'stmt' and isinstance(m.ast, ast.Assign) and src(m.ast.targets[0]) == prop + '.spi']
-        ok = len(ow) == 1 and csv is not None and src(ow[0].ast.value) == csv + '.inbound_spi' \
-            and ow[0].id in gq.reach([n]) and n.id not in gq.reach([ow[0]])
+                  key=('O6', 'responder-ts'), site=ctx.site(rq, c.node), detail={'lookup returns': [tq.text(t, 200) for t in rets]})
+        ow = [(v, s) for t, v, _, _, s in R.stores if prop is not None and t == attr(prop, 'spi')]
+        ok = len(ow) == 1 and ow[0][0] == kw.get('inbound_spi') and ow[0][1] > c.seq
         ctx.check(ok, 'O6', 'responder: the proposal\'s SPI is overwritten with our inbound SPI only after the peer\'s value was read',
-                  key=('O6', 'responder-overwrite-order'), site=ctx.site(rq, x))
-        sa = [y for y in calls_in(rq.node) if callee_name(y) == 'PayloadSA']
-        ctx.check(len(sa) == 1 and src(sa[0].args[0]) == '[%s]' % prop and ow and
-                  all(common.node_of(gq, sa[0])[0].id in gq.reach([o]) for o in ow), 'O6',
-                  'responder: the SA payload of the response carries that proposal (with our inbound SPI)', key=('O6', 'responder-announce'),
+                  key=('O6', 'responder-overwrite-order'), site=ctx.site(rq, c.node))
+        sa = R.calls_to(callee='new message.PayloadSA')
+        ctx.check(len(sa) == 1 and sa[0].args.get('proposals') == ('list', (prop,)) and bool(ow) and all(s < sa[0].seq for _, s in ow),
+                  'O6', 'responder: the SA payload of the response carries that proposal (with our inbound SPI)',
+                  key=('O6', 'responder-announce'), site=ctx.site(rq, rq.node))
+        cc = R.calls_to(qual='xfrm.Xfrm.create_child_sa')
+        kd = cc[0].args.get('keyring') if len(cc) == 1 else None
+        ctx.check(len(cc) == 1 and cc[0].args.get('ike_sa') == P('self') and cc[0].args.get('child_sa') == c.term and
+                  cc[0].args.get('is_initiator') == const(False), 'O6',
+                  'responder: installs that ChildSa as is_initiator=False', key=('O6', 'responder-install'),
                   site=ctx.site(rq, rq.node))
-        cc = [y for y in calls_in(rq.node) if callee_name(y) == 'create_child_sa']
-        ctx.check(len(cc) == 1 and [src(a) for a in cc[0].args[:3]] == ['self', csv, 'child_sa_keyring'] and
-                  any(k.arg == 'is_initiator' and src(k.value) == 'False' for k in cc[0].keywords), 'O6',
-                  'responder: installs that ChildSa with the derived keyring as is_initiator=False', key=('O6', 'responder-install'),
+        ctx.check(kd is not None and tq.is_call(kd, IKESA + '.generate_child_sa_key_material') and tq.args(kd).get('child_proposal') == prop,
+                  'O6', 'responder: the installed keyring is derived for the chosen proposal', key=('O6', 'responder-keyring'),
                   site=ctx.site(rq, rq.node))
-        kd = single_def(res, rq, 'child_sa_keyring')
-        ctx.check(isinstance(kd, ast.Call) and callee_name(kd) == 'generate_child_sa_key_material' and any(
-            k.arg == 'child_proposal' and src(k.value) == prop for k in kd.keywords), 'O6',
-            'responder: the keyring is derived for the chosen proposal', key=('O6', 'responder-keyring'), site=ctx.site(rq, rq.node))
     rs = ctx.func(IKESA + '._process_create_child_sa_negotiation_res')
-    rep = [c for c in calls_in(rs.node) if callee_name(c) == '_replace']
+    S = ctx.sval(rs)
+    resp = rs.call_params()[0]
+    rep = S.calls_to(callee='method._replace')
     ctx.check(len(rep) == 1, 'O6', 'the initiator completes its ChildSa from the response', key=('O6', 'initiator-replace'),
               site=ctx.site(rs, rs.node))
-    for x in rep:
-        kw = kwargs_of(x, names=[])
-        prop = src(kw.get('proposal'))
-        ctx.check(src(kw.get('outbound_spi')) == prop + '.spi' and 'inbound_spi' not in kw and src(x.func.value) == 'self.creating_child_sa',
+    pending = attr(P('self'), 'creating_child_sa')
+    for c in rep:
+        kw = c.args
+        prop = kw.get('proposal', NONE)
+        ok = tq.match(S.expr('%s.get_payload(Payload.Type.SA, True).proposals[0]' % resp), prop) is not None
+        ctx.check(ok and kw.get('outbound_spi') == attr(prop, 'spi') and 'inbound_spi' not in kw and c.recv == pending,
                   'O6', 'initiator: outbound SPI is the SPI of the responder\'s proposal, the inbound SPI stays the announced one',
-                  key=('O6', 'initiator-spis'), site=ctx.site(rs, x))
+                  key=('O6', 'initiator-spis'), site=ctx.site(rs, c.node))
         tsv = {}
         for side, pt in (('tsi', 'TSi'), ('tsr', 'TSr')):
-            e = inline(res, rs, kw.get(side), 4, frozenset([rs.call_params()[0]])) if kw.get(side) is not None else None
-            tsv[side] = e is not None and src(e) == '%s.get_payload(Payload.Type.%s, True).traffic_selectors[0]' % (rs.call_params()[0], pt)
+            tsv[side] = tq.match(S.expr('%s.get_payload(Payload.Type.%s, True).traffic_selectors[0]' % (resp, pt)), kw.get(side, NONE)) is not None
         ctx.check(tsv['tsi'] and tsv['tsr'], 'O6', 'initiator: tsi is the narrowed TSi (its local side), tsr the narrowed TSr',
-                  key=('O6', 'initiator-ts-narrowed'), site=ctx.site(rs, x))
-        cc = [y for y in calls_in(rs.node) if callee_name(y) == 'create_child_sa']
-        ctx.check(len(cc) == 1 and [src(a) for a in cc[0].args[:3]] == ['self', 'self.creating_child_sa', 'child_sa_keyring'] and
-                  any(k.arg == 'is_initiator' and src(k.value) == 'True' for k in cc[0].keywords), 'O6',
-                  'initiator: installs that ChildSa with the derived keyring as is_initiator=True', key=('O6', 'initiator-install'),
+                  key=('O6', 'initiator-ts-narrowed'), site=ctx.site(rs, c.node))
+        cc = S.calls_to(qual='xfrm.Xfrm.create_child_sa')
+        kd = cc[0].args.get('keyring') if len(cc) == 1 else None
+        ctx.check(len(cc) == 1 and cc[0].args.get('ike_sa') == P('self') and cc[0].args.get('child_sa') == c.term and
+                  cc[0].args.get('is_initiator') == const(True), 'O6',
+                  'initiator: installs that ChildSa as is_initiator=True', key=('O6', 'initiator-install'),
                   site=ctx.site(rs, rs.node))
-        kd = single_def(res, rs, 'child_sa_keyring')
-        ctx.check(isinstance(kd, ast.Call) and callee_name(kd) == 'generate_child_sa_key_material' and any(
-            k.arg == 'child_proposal' and src(k.value) == prop for k in kd.keywords), 'O6',
-            'initiator: the keyring is derived for the proposal the responder chose (the one installed), not for the offer',
-            key=('O6', 'initiator-keyring'), site=ctx.site(rs, rs.node))
-        asg = [n for n in walk_no_nested(rs.node) if isinstance(n, ast.Assign) and n.value is x]
-        ctx.check(len(asg) == 1 and src(asg[0].targets[0]) == 'self.creating_child_sa', 'O6',
-                  'initiator: the completed ChildSa replaces the pending one (namedtuple _replace returns a copy)',
-                  key=('O6', 'initiator-rebind'), site=ctx.site(rs, x))
+        ctx.check(kd is not None and tq.is_call(kd, IKESA + '.generate_child_sa_key_material') and tq.args(kd).get('child_proposal') == prop,
+                  'O6', 'initiator: the keyring is derived for the proposal the responder chose (the one installed), not for the offer',
+                  key=('O6', 'initiator-keyring'), site=ctx.site(rs, rs.node))
+        st = [v for t, v, _, _, _ in S.stores if t == pending]
+        ctx.check(c.term in st, 'O6', 'initiator: the completed ChildSa replaces the pending one (namedtuple _replace returns a copy)',
+                  key=('O6', 'initiator-rebind'), site=ctx.site(rs, c.node))
     gr = ctx.func(IKESA + '._generate_child_sa_negotiation_req')
-    p0 = gr.call_params()[0]
-    asg = [n for n in walk_no_nested(gr.node) if isinstance(n, ast.Assign) and src(n.targets[0]) == p0 + '.proposal.spi']
-    sa = [y for y in calls_in(gr.node) if callee_name(y) == 'PayloadSA']
-    ctx.check(len(asg) == 1 and src(asg[0].value) == p0 + '.inbound_spi' and len(sa) == 1 and src(sa[0].args[0]) == '[%s.proposal]' % p0,
-              'O6', 'initiator: the request announces its inbound SPI in the SA payload', key=('O6', 'initiator-announce'),
+    GR = ctx.sval(gr)
+    p0 = P(gr.call_params()[0])
+    ann = [(v, s) for t, v, _, _, s in GR.stores if t == attr(attr(p0, 'proposal'), 'spi')]
+    sa = GR.calls_to(callee='new message.PayloadSA')
+    ctx.check(len(ann) == 1 and ann[0][0] == attr(p0, 'inbound_spi') and len(sa) == 1 and
+              sa[0].args.get('proposals') == ('list', (attr(p0, 'proposal'),)), 'O6',
+              'initiator: the request announces its inbound SPI in the SA payload', key=('O6', 'initiator-announce'),
               site=ctx.site(gr, gr.node))
-    ts = [(callee_name(y), src(y.args[0])) for y in calls_in(gr.node) if callee_name(y) in ('PayloadTSi', 'PayloadTSr')]
-    ctx.check(sorted(ts) == [('PayloadTSi', p0 + '.tsi'), ('PayloadTSr', p0 + '.tsr')], 'O6',
+    ts = sorted((c.callee, tq.text(c.args.get('traffic_selectors', NONE))) for c in GR.calls
+                if c.callee in ('new message.PayloadTSi', 'new message.PayloadTSr'))
+    ctx.check(ts == [('new message.PayloadTSi', tq.text(attr(p0, 'tsi'))), ('new message.PayloadTSr', tq.text(attr(p0, 'tsr')))], 'O6',
               'initiator: TSi carries its local selectors (tsi), TSr the peer-side ones', key=('O6', 'initiator-ts'), site=ctx.site(gr, gr.node))
     for q in (IKESA + '.process_acquire', IKESA + '.process_expire'):
         fi = ctx.func(q)
-        for c in [c for c in calls_in(fi.node) if callee_name(c) == 'ChildSa']:
-            kw = kwargs_of(c, names=[])
-            ctx.check(src(kw.get('inbound_spi')) == 'os.urandom(4)' and isinstance(kw.get('outbound_spi'), ast.BinOp), 'O6',
+        F = ctx.sval(fi)
+        for c in F.calls_to(callee='namedtuple.ChildSa'):
+            kw = c.args
+            ob = kw.get('outbound_spi', NONE)
+            ctx.check(tq.match(F.expr('os.urandom(4)'), kw.get('inbound_spi', NONE)) is not None and ob[0] == 'const' and
+                      isinstance(ob[2], bytes) and len(ob[2]) == 4, 'O6',
                       '%s: the pending ChildSa has a fresh inbound SPI and a placeholder outbound SPI' % fi.name,
-                      key=('O6', q, 'pending-spis'), site=ctx.site(fi, c))
+                      key=('O6', q, 'pending-spis'), site=ctx.site(fi, c.node))
     pa = ctx.func(IKESA + '.process_acquire')
-    for c in [c for c in calls_in(pa.node) if callee_name(c) == 'ChildSa']:
-        kw = kwargs_of(c, names=[])
-        ps = pa.call_params()
-        ctx.check(src(kw.get('tsi')).startswith('(%s, ' % ps[0]) and src(kw.get('tsi')).endswith('.my_ts)')
-                  and src(kw.get('tsr')).startswith('(%s, ' % ps[1]) and src(kw.get('tsr')).endswith('.peer_ts)'), 'O6',
+    A = ctx.sval(pa)
+    ps = pa.call_params()
+    for c in A.calls_to(callee='namedtuple.ChildSa'):
+        kw = c.args
+
+        def offer(t, param, side):
+            return t[0] == 'tuple' and len(t[1]) == 2 and t[1][0] == P(param) and t[1][1][0] == 'attr' and t[1][1][2] == side
+        ctx.check(offer(kw.get('tsi', NONE), ps[0], 'my_ts') and offer(kw.get('tsr', NONE), ps[1], 'peer_ts') and
+                  kw['tsi'][1][1][1] == kw['tsr'][1][1][1], 'O6',
                   'process_acquire: tsi offers the local selectors (acquire source, policy my_ts), tsr the peer-side ones',
-                  key=('O6', 'acquire-ts'), site=ctx.site(pa, c))
+                  key=('O6', 'acquire-ts'), site=ctx.site(pa, c.node))
 
     # ---------------------------------------------------------------- O7
     cc = ctx.func('xfrm.Xfrm.create_child_sa')
     csa = ctx.func('xfrm.Xfrm.create_sa')
-    calls = [c for c in calls_in(cc.node) if callee_name(c) == 'create_sa']
-    ctx.check(len(calls) == 2, 'O7', 'create_child_sa installs exactly two kernel SAs', key=('O7', 'two-calls'), site=ctx.site(cc, cc.node))
+    C = ctx.sval(cc)
+    calls = C.calls_to(qual=csa.qual)
+    ctx.check(len(calls) == 2 and all(not c.pc for c in calls), 'O7', 'create_child_sa installs exactly two kernel SAs, unconditionally',
+              key=('O7', 'two-calls'), site=ctx.site(cc, cc.node))
     if len(calls) == 2:
-        b1 = {k: src(v) for k, v in kwargs_of(calls[0], target=csa).items()}
-        b2 = {k: src(v) for k, v in kwargs_of(calls[1], target=csa).items()}
-        if b1.get('spi') == 'child_sa.inbound_spi':
+        b1, b2 = calls[0].args, calls[1].args
+        child, ike, kp, isi = P('child_sa'), P('ike_sa'), P(cc.call_params()[2]), P('is_initiator')
+        if b1.get('spi') == attr(child, 'inbound_spi'):
             b1, b2 = b2, b1
-        want1 = {'src_selector': 'src_selector', 'dst_selector': 'dst_selector', 'src_port': 'src_port', 'dst_port': 'dst_port',
-                 'spi': 'child_sa.outbound_spi', 'src': 'ike_sa.my_addr', 'dst': 'ike_sa.peer_addr', 'sk_e': 'sk_ei', 'sk_a': 'sk_ai',
-                 'mode': 'child_sa.mode', 'ip_proto': 'ip_proto', 'ipsec_proto': 'ipsec_proto', 'enc_algorithm': 'encr_alg',
-                 'auth_algorithm': 'integ_alg', 'lifetime': 'lifetime'}
+        E = C.expr
+        want1 = {'src_selector': E('child_sa.tsi.get_network()'), 'dst_selector': E('child_sa.tsr.get_network()'),
+                 'src_port': E('child_sa.tsi.get_port()'), 'dst_port': E('child_sa.tsr.get_port()'),
+                 'spi': attr(child, 'outbound_spi'), 'src': attr(ike, 'my_addr'), 'dst': attr(ike, 'peer_addr'),
+                 'sk_e': mk_cond(isi, attr(kp, 'sk_ei'), attr(kp, 'sk_er')), 'sk_a': mk_cond(isi, attr(kp, 'sk_ai'), attr(kp, 'sk_ar')),
+                 'mode': attr(child, 'mode'), 'ip_proto': attr(attr(child, 'tsi'), 'ip_proto')}
         for k, v in want1.items():
-            ctx.check(b1.get(k) == v, 'O7', 'outbound SA: %s = %s' % (k, v), key=('O7', 'outbound', k), site=ctx.site(cc, calls[0]),
-                      detail={'found': b1.get(k)})
+            ctx.check(k in b1 and same(b1[k], v), 'O7', 'outbound SA: %s = %s' % (k, tq.text(v, 120)), key=('O7', 'outbound', k),
+                      site=ctx.site(cc, calls[0].node), detail={'found': tq.text(b1[k], 300) if k in b1 else None})
+        sigma = [(attr(child, 'tsi'), attr(child, 'tsr')), (attr(child, 'outbound_spi'), attr(child, 'inbound_spi')),
+                 (attr(ike, 'my_addr'), attr(ike, 'peer_addr')), (attr(kp, 'sk_ei'), attr(kp, 'sk_er')), (attr(kp, 'sk_ai'), attr(kp, 'sk_ar'))]
+
+        def mirror(t):
+            if isinstance(t, tuple):
+                for x, y in sigma:
+                    if t == x:
+                        return y
+                    if t == y:
+                        return x
+                return tuple(mirror(z) for z in t)
+            return t
+        mirrored = 0
         for k in csa.call_params():
             v1 = b1.get(k)
-            ctx.check(v1 is not None and b2.get(k) == SIGMA.get(v1, v1), 'O7', 'inbound SA: %s is the mirror image of the outbound SA\'s (%s)'
-                      % (k, SIGMA.get(v1, v1) if v1 else '?'), key=('O7', 'mirror', k), site=ctx.site(cc, calls[1]),
-                      detail={'outbound': v1, 'inbound': b2.get(k)})
-        want_loc = {'src_selector': 'child_sa.tsi.get_network()', 'dst_selector': 'child_sa.tsr.get_network()',
-                    'src_port': 'child_sa.tsi.get_port()', 'dst_port': 'child_sa.tsr.get_port()', 'ip_proto': 'child_sa.tsi.ip_proto'}
-        for k, v in want_loc.items():
-            d = single_def(res, cc, k)
-            ctx.check(isinstance(d, ast.AST) and src(d) == v, 'O7', '%s = %s (tsi is the local selector)' % (k, v),
-                      key=('O7', 'local', k), site=ctx.site(cc, cc.node))
-        ifs = [n for n in walk_no_nested(cc.node) if isinstance(n, ast.If) and src(n.test) in ('is_initiator', 'not is_initiator')]
-        ok = len(ifs) == 1 and len(ifs[0].body) == 1 and len(ifs[0].orelse) == 1
-        if ok:
-            tb, fb = (ifs[0].body[0], ifs[0].orelse[0]) if src(ifs[0].test) == 'is_initiator' else (ifs[0].orelse[0], ifs[0].body[0])
-
-            def binding(st):
-                if isinstance(st, ast.Assign) and isinstance(st.targets[0], ast.Tuple) and isinstance(st.value, ast.Tuple) \
-                        and len(st.targets[0].elts) == len(st.value.elts):
-                    return {src(a): src(b) for a, b in zip(st.targets[0].elts, st.value.elts)}
-                return None
-            bi, br = binding(tb), binding(fb)
-            kp = cc.call_params()[2]
-            ok = bi == {'sk_ei': kp + '.sk_ei', 'sk_er': kp + '.sk_er', 'sk_ai': kp + '.sk_ai', 'sk_ar': kp + '.sk_ar'} and \
-                br == {'sk_ei': kp + '.sk_er', 'sk_er': kp + '.sk_ei', 'sk_ai': kp + '.sk_ar', 'sk_ar': kp + '.sk_ai'}
-        ctx.check(ok, 'O7', 'the initiator\'s outbound SA gets the initiator-to-responder keys (SK_ei, SK_ai), the responder\'s the '
-                  'responder-to-initiator keys; the switch is the mirror image', key=('O7', 'role-switch'), site=ctx.site(cc, cc.node))
+            if v1 is None:
+                ctx.bad('O7', ('O7', 'mirror', k), 'outbound SA: parameter %s is not passed' % k, site=ctx.site(cc, calls[0].node))
+                continue
+            exp = mirror(strip_ids(v1))
+            if k == 'ip_proto':
+                exp = strip_ids(v1)          # the upper-layer protocol of the selector is the same in both directions
+            mirrored += exp != strip_ids(v1)
+            ctx.check(k in b2 and strip_ids(b2[k]) == exp, 'O7', 'inbound SA: %s is the mirror image of the outbound SA\'s' % k,
+                      key=('O7', 'mirror', k), site=ctx.site(cc, calls[1].node),
+                      detail={'outbound': tq.text(v1, 200), 'inbound': tq.text(b2[k], 200) if k in b2 else None})
+        ctx.check(mirrored >= 8, 'O7', 'the involution exchanges selectors, ports, SPI, addresses and both keys (%d operands differ)' % mirrored,
+                  key=('O7', 'role-switch'), site=ctx.site(cc, cc.node))
     dl = ctx.func('xfrm.Xfrm.delete_child_sa')
-    ds = [[src(a) for a in c.args] for c in calls_in(dl.node) if callee_name(c) == 'delete_sa']
-    ctx.check(sorted(ds) == sorted([['ike_sa.peer_addr', 'ipsec_protocol', 'child_sa.outbound_spi'],
-                                    ['ike_sa.my_addr', 'ipsec_protocol', 'child_sa.inbound_spi']]), 'O7',
+    D = ctx.sval(dl)
+    ds = sorted((tq.text(c.args.get('daddr', NONE)), tq.text(c.args.get('spi', NONE))) for c in D.calls_to(qual='xfrm.Xfrm.delete_sa'))
+    ctx.check(ds == sorted([('ike_sa.peer_addr', 'child_sa.outbound_spi'), ('ike_sa.my_addr', 'child_sa.inbound_spi')]), 'O7',
               'deletion addresses the same (destination, SPI) pairs: outbound at the peer address, inbound at ours',
-              key=('O7', 'delete-orientation'), site=ctx.site(dl, dl.node))
+              key=('O7', 'delete-orientation'), site=ctx.site(dl, dl.node), detail={'found': ds})
 
     # ---------------------------------------------------------------- O8 / O9
     common.create_sa_orientation(ctx, 'O8')
-    names = {}
-    for n in walk_no_nested(cc.node):
-        if isinstance(n, ast.Assign) and isinstance(n.value, ast.Dict):
-            names[src(n.targets[0])] = {src(k).split('.')[-1]: (v.value if isinstance(v, ast.Constant) else None)
-                                        for k, v in zip(n.value.keys, n.value.values)}
-    ctx.check(names.get('_cipher_names', {}).get('ENCR_AES_CBC') == b'cbc(aes)', 'O9', 'AES-CBC is installed as cbc(aes)',
-              key=('O9', 'cipher-name'), site=ctx.site(cc, cc.node))
-    for k, v in {'AUTH_HMAC_SHA1_96': b'hmac(sha1)', 'AUTH_HMAC_SHA2_256_128': b'hmac(sha256)', 'AUTH_HMAC_SHA2_512_256': b'hmac(sha512)'}.items():
-        ctx.check(names.get('_auth_names', {}).get(k) == v, 'O9', '%s is installed as %s' % (k, v.decode()), key=('O9', 'auth-name', k),
-                  site=ctx.site(cc, cc.node))
-    for var, tbl, tt in (('encr_alg', '_cipher_names', 'ENCR'), ('integ_alg', '_auth_names', 'INTEG')):
-        d = single_def(res, cc, var)
-        t = src(d) if isinstance(d, ast.AST) else ''
-        ctx.check('%s[child_sa.proposal.get_transform(Transform.Type.%s).id]' % (tbl, tt) in t, 'O9',
-                  '%s is looked up by the negotiated %s transform of the CHILD_SA' % (var, tt), key=('O9', 'lookup', var),
-                  site=ctx.site(cc, cc.node))
+    if len(calls) == 2:
+        enc, auth = calls[0].args.get('enc_algorithm', NONE), calls[0].args.get('auth_algorithm', NONE)
+        esp = C.expr('child_sa.proposal.protocol_id == Proposal.Protocol.ESP')
+        e_tbl = enc[2] if enc[0] == 'cond' and same(enc[1], esp) and enc[3] == NONE else None
+        for var, t, tt in (('encryption', e_tbl, 'ENCR'), ('integrity', auth, 'INTEG')):
+            ok = t is not None and t[0] == 'index' and t[1][0] == 'dict' and \
+                same(t[2], C.expr('child_sa.proposal.get_transform(Transform.Type.%s).id' % tt))
+            ctx.check(ok, 'O9', 'the %s algorithm name is looked up by the negotiated %s transform of the CHILD_SA%s' % (
+                var, tt, ' (ESP only, else none)' if tt == 'ENCR' else ''), key=('O9', 'lookup', var), site=ctx.site(cc, cc.node),
+                detail={'found': tq.text(enc if tt == 'ENCR' else auth, 300)})
+            table = {}
+            if ok:
+                for ent in t[1][1]:
+                    if len(ent) == 2 and ent[1][0] == 'const':
+                        table[ent[0][1].split('.')[-1] if ent[0][0] == 'global' else tq.text(ent[0])] = ent[1][2]
+            if tt == 'ENCR':
+                ctx.check(table.get('ENCR_AES_CBC') == b'cbc(aes)', 'O9', 'AES-CBC is installed as cbc(aes)',
+                          key=('O9', 'cipher-name'), site=ctx.site(cc, cc.node))
+            else:
+                for k, v in {'AUTH_HMAC_SHA1_96': b'hmac(sha1)', 'AUTH_HMAC_SHA2_256_128': b'hmac(sha256)',
+                             'AUTH_HMAC_SHA2_512_256': b'hmac(sha512)'}.items():
+                    ctx.check(table.get(k) == v, 'O9', '%s is installed as %s' % (k, v.decode()), key=('O9', 'auth-name', k),
+                              site=ctx.site(cc, cc.node))
 
 
 MANIFEST = {
@@ -395,6 +445,6 @@ MANIFEST = {
              'is_initiator key switch, kernel field orientation and algorithm names. These are exactly the swaps that pass the '
              'suite (both test peers run the same code, XFRM is mocked).',
     'note': 'Trusted: resolver typing. Declined: byte equality of keys across hosts, kernel behaviour.',
-    'technique': 'provenance/orientation dataflow + term comparison + mirror (involution) check of sibling call sites',
+    'technique': 'provenance/orientation dataflow over value terms (gated single assignment) + mirror (involution) check of sibling call sites',
     'design_ref': 'DESIGN.md 3/C01',
 }
